@@ -362,6 +362,118 @@ def _conv_round_csub():
 
 CSUBS = [_conv_round_csub()]   # C-side definitions of routines without a closed-form reference
 
+_elab_csubs = None
+
+
+def _elaborated_csub(name, refs):
+    """C-side definition of a bundled sub-routine taken from its own C text (sub_routines.json): parsed by the real
+    parser and elaborated like a behaviour (value parameters are locals; a `const HexOp *RxV` parameter is the register
+    operand `RxV` itself, handed over by reference).  Self-check: the printed AST parses to the same tree."""
+    import elab
+    import c01
+    sr = json.load(open(os.path.join(rc.REPO, "Resources/Hexagon/sub_routines.json")))["sub_routines"][name]
+    params = []
+    for p_ in sr["params"]:
+        ty, pn = p_.rsplit(" ", 1)
+        if ty in elab.INT:
+            params.append((pn, elab.INT[ty]))
+    el = elab.Elab(*c01.signatures())
+    el.locals = {n: t for n, t in params}
+    tree = rc.parse_programs([sr["code"]])[0]
+    if tree[0] != "ok":
+        raise RuntimeError(f"bundled sub-routine {name} does not parse")
+    body = el.program(tree[1])
+    again = rc.parse_programs([gen.prog_src(body)])[0]
+    if again[0] != "ok" or again[1] != tree[1]:
+        raise RuntimeError(f"bundled sub-routine {name}: print/parse round trip of the elaborated body gives a different tree")
+    return ["csub", Q(name), [[Q(n), [bool(t[0]), t[1]]] for n, t in params], [bool(elab.INT[sr["return_type"]][0]), elab.INT[sr["return_type"]][1]],
+            semcheck.stmts(body), [Q(r) for r in refs]]
+
+
+def all_csubs():
+    """CSUBS plus the routines whose C-side definition is elaborated from the bundled C text"""
+    global _elab_csubs
+    if _elab_csubs is None:
+        _elab_csubs = [_elaborated_csub("fcirc_add", ["Rx_op"])]
+    return CSUBS + _elab_csubs
+
+
+LPCFG_F, OVF_F = "HEX_REG_FIELD_USR_LPCFG", "HEX_REG_FIELD_USR_OVF"
+
+
+def get_usr(field=LPCFG_F):
+    return ("callx", "get_usr_field", ["bundle", field], [], (False, 32))
+
+
+def get_npc():
+    return ("callx", "get_npc", ["pkt"], [], (False, 32))
+
+
+def get_cs(m="MuV"):
+    return ("xmacro", "get_corresponding_CS", ["pkt", m], (True, 32))
+
+
+def fcirc(off, rx="RxV", m="MuV"):
+    return ("callx", "fcirc_add", ["bundle", rx], [off, reg(m), get_cs(m)], (True, 32))
+
+
+def value_call_programs():
+    """value calls with pass-through arguments: get_usr_field, get_npc, fcirc_add (by-reference register operand)"""
+    out = []
+    L = lambda k: ("lit", str(k), k, (True, 32))
+    H = lambda txt, k: ("lit", txt, k, (False, 32))
+    s, t = reg("RsV"), reg("RtV")
+    i64 = T["int64_t"]
+    # --- get_usr_field
+    out.append([wr("RdV", get_usr())])
+    out.append([wr("RddV", get_usr())])                                                        # uint32_t widened
+    out.append([wr("RdV", ("bin", "+", get_usr(), s))])
+    out.append([wr("RdV", ("bin", "+", get_usr(LPCFG_F), get_usr(OVF_F)))])                    # two fields
+    out.append([set_usr_stmt(s, LPCFG_F), wr("RdV", get_usr(LPCFG_F))])                        # reads what was written
+    out.append([set_usr_stmt(s, OVF_F), wr("RdV", get_usr(LPCFG_F))])                          # another field: old value
+    out.append([wr("RdV", get_usr(LPCFG_F)), set_usr_stmt(t, LPCFG_F), wr("ReV", get_usr(LPCFG_F))])   # before and after
+    out.append([("if", get_usr(), [set_usr_stmt(("bin", "-", get_usr(), L(1)), LPCFG_F)], None)])        # the J2_endloop0 shape
+    out.append([("if", ("cmp", ">", get_usr(), L(1)), [wr("RdV", L(1))], [wr("RdV", get_usr(OVF_F))])])
+    out.append([decl("uint32_t", "w", get_usr()), wr("RdV", ("shift", ">>", var("w", "uint32_t"), L(1)))])
+    # not included (observed, see NOTES-value-calls.md): `RdV = ({ set_usr_field(b, F, s); get_usr_field(b, F); })` — the
+    # pending call inside the VALUE of a call statement-expression is pulled in front of the statement (reads the old cell)
+    # a void call statement with a pending argument in a loop body / block with a bare value: the dependencies of the bare
+    # values (loop step, `i++;`) come first, then those of the call's arguments (`chk`: bare leaves first)
+    out.append([("for", "i", L(3), [set_usr_stmt(("bin", "+", get_usr(), L(1)), LPCFG_F)]), wr("RdV", get_usr())])
+    out.append([("for", "i", L(3), [set_usr_stmt(call("clz32", s), LPCFG_F), wr("RdV", call("clz32", t))])])
+    out.append([("assign", ("var", "i", (False, 32)), "=", s), ("if", reg("PuV"), [set_usr_stmt(call("clz32", s), LPCFG_F), ("exprstmt", ("post", "i", "++"))], None),
+                wr("RdV", ("var", "i", (False, 32)))])
+    out.append([wr("RdV", ("tern", reg("PuV"), get_usr(), s))])                                  # ?: arm (the call itself has no effect on the state)
+    out.append([wr("RdV", call("clz32", get_usr()))])                                            # argument of another call
+    out.append([("exprstmt", get_usr()), wr("RdV", s)])                                          # value unused
+    out.append([("if", reg("PuV"), [wr("RdV", s), set_usr_stmt(("bin", "+", get_usr(), L(1)), LPCFG_F)], None), wr("ReV", get_usr())])
+    # --- get_npc
+    out.append([wr("RdV", get_npc())])
+    out.append([("assign", ("reg", "HEX_REG_ALIAS_LR", (False, 32)), "=", ("bin", "&", get_npc(), H("0xfffffffe", 0xfffffffe)))])  # fREAD_NPC of J2_call
+    out.append([wr("RddV", ("bin", "+", get_npc(), reg("RssV")))])
+    out.append([wr("RdV", ("bin", "-", get_npc(), ("reg", "HEX_REG_ALIAS_PC", (False, 32))))])   # next packet - this packet
+    out.append([("jump", get_npc())])
+    out.append([("if", ("cmp", "==", get_npc(), s), [wr("RdV", L(1))], None)])
+    out.append([wr("RdV", ("tern", reg("PuV"), get_npc(), get_usr()))])
+    # --- get_corresponding_CS
+    out.append([wr("RdV", get_cs())])
+    out.append([wr("RddV", get_cs())])                                                         # int32_t sign-extended
+    out.append([wr("RdV", ("bin", "+", get_cs(), reg("MuV")))])
+    # --- fcirc_add: returns the new pointer AND writes it to the register operand handed over by reference
+    ea = ("var", "EA", (False, 32))
+    si = ("imm", "siV", (True, 32))
+    out.append([wr("RdV", fcirc(si))])
+    out.append([wr("RddV", fcirc(si))])
+    out.append([wr("RdV", fcirc(s)), wr("ReV", reg("RxV"))])                                     # the operand after the call
+    out.append([("assign", ea, "=", reg("RxV")), wr("RdV", fcirc(si)), wr("ReV", ("bin", "-", reg("RxV"), ea))])
+    out.append([wr("RdV", ("bin", "+", fcirc(L(4)), fcirc(L(8))))])                              # two calls: the second sees the first's update
+    out.append([wr("RdV", fcirc(("shift", "<<", s, L(2))))])
+    out.append([("if", reg("PuV"), [wr("RdV", fcirc(si))], [wr("RdV", reg("RxV"))])])
+    out.append([("for", "i", L(3), [wr("RdV", fcirc(L(4)))])])                                   # advances three times
+    out.append([("assign", ea, "=", reg("RxV")), ("exprstmt", fcirc(si)), wr("RdV", ea)])        # the shipped shape (value dropped; the call moves to the front)
+    out.append([("exprstmt", fcirc(si)), wr("RdV", reg("RxV"))])
+    return out
+
 
 def programs_C08(rng, tier):
     out = []
@@ -379,7 +491,7 @@ def programs_C08(rng, tier):
     if tier == "quick":
         rng.shuffle(out)
         out = out[:150]
-    return out + dead_arm_calls()
+    return out + dead_arm_calls() + value_call_programs()
 
 
 def dead_arm_calls():
@@ -438,7 +550,7 @@ def explicit_rw_mixed(ast) -> bool:
 
 def run_prop(prop: str, tier: str, replay=None) -> int:
     res = Result(prop, tier)
-    st = prepare(prop, translate=translate.run_all)
+    st = prepare(prop, translate=translate.run_all, extra_modules=["RzilVerif.Props.C08Calls"] if prop == "C08" else [])
     res.proof = st
     rng = random.Random(seed() * 7331 + int(prop[1:]))
     nstates = 24 if tier == "quick" else 96
@@ -493,7 +605,7 @@ def run_prop(prop: str, tier: str, replay=None) -> int:
         for cn, ts in callee_tmps.items():
             if ts & mine and (cn + "(") in it["src"]:
                 it["features"].add("callee_tmp")   # a caller temporary has the name of a temporary the callee's body sets
-    reqs = semcheck.sem_requests(items, nstates, seed() + 1, csubs=CSUBS)
+    reqs = semcheck.sem_requests(items, nstates, seed() + 1, csubs=all_csubs())
     allreps = Driver().run(pre + [r for _, r in reqs])
     reps = allreps[len(pre):]
     sub_problems = []
@@ -607,7 +719,7 @@ def _detuple(x):
         y = [_detuple(v) for v in x]
         if y and isinstance(y[0], str) and y[0] in ("reg", "imm", "lit", "var", "cast", "un", "bin", "shift", "cmp", "log", "not", "tern", "macro",
                                                        "call", "post", "stmtexpr", "load", "decl", "assign", "store", "if", "for", "jump", "raw", "seqexpr", "vcall", "chain", "ret",
-                                                       "exprstmt", "block", "andcmp", "intand"):
+                                                       "exprstmt", "block", "andcmp", "intand", "callx", "xmacro"):
             # argument lists and statement lists stay lists
             return tuple(v if not (isinstance(v, tuple) and False) else v for v in y)
         return y
